@@ -199,6 +199,35 @@ fn c14_q_reason_linux_mac_total() {
     }
 }
 
+/// F: MinidumpMiscInfo::read (base variant), RawMiscInfo::{process_id, process_create_time, process_user_time, process_kernel_time} (flag-gated accessors), MinidumpMiscInfo::process_create_time
+/// I: the 24 bytes of a MINIDUMP_MISC_INFO stream (flags1 and all fields symbolic), byte order
+/// B: the base misc-info variant
+/// O: the process id is reported exactly when MINIDUMP_MISC1_PROCESS_ID (0x1) is set and is the stream's value; the create/user/kernel times exactly when MINIDUMP_MISC1_PROCESS_TIMES (0x2) is set; process_create_time() is present under the same flag
+#[kani::proof]
+#[kani::unwind(8)]
+fn c14_q_misc_info_pid_and_times_gating() {
+    let b: [u8; 24] = kani::any();
+    let e = any_endian();
+    let m = minidump::MinidumpMiscInfo::read(&b, &b, e, None).unwrap();
+    let rd32 = |o: usize| {
+        let x = [b[o], b[o + 1], b[o + 2], b[o + 3]];
+        match e {
+            Endian::Little => u32::from_le_bytes(x),
+            Endian::Big => u32::from_be_bytes(x),
+        }
+    };
+    let flags = rd32(4);
+    let has_pid = flags & 1 != 0;
+    let has_times = flags & 2 != 0;
+    assert!(m.raw.process_id().copied() == if has_pid { Some(rd32(8)) } else { None });
+    assert!(m.raw.process_create_time().copied() == if has_times { Some(rd32(12)) } else { None });
+    assert!(m.raw.process_user_time().copied() == if has_times { Some(rd32(16)) } else { None });
+    assert!(m.raw.process_kernel_time().copied() == if has_times { Some(rd32(20)) } else { None });
+    assert!(m.process_create_time().is_some() == has_times);
+    kani::cover!(has_pid && !has_times, "pid without times");
+    std::mem::forget(m);
+}
+
 /// Reachability witness.
 #[kani::proof]
 #[kani::unwind(18)]
